@@ -594,9 +594,8 @@ fn decode_lenient(bytes: &[u8], out: &mut Vec<u32>) {
     }
 }
 
-// A stream that can make the decoder hand an invalid scalar value to char::from_u32_unchecked
-// (surrogates, values above 0x10FFFF) is undefined behaviour / a debug abort: the subject of
-// C02, kept out of this property's inputs (such a case is recorded as skipped).
+// Well-shaped sequences that are not scalar values (surrogates, values above 0x10FFFF) are generated:
+// the repaired decoder reports them as errors (Utf8Decoder) / raw bytes (tokenizer), and so does the model.
 
 // ---------- escape sequences ----------
 /// byte ranges of the form ESC [ [0-9:;]* m in a stream
@@ -793,6 +792,11 @@ fn run_w(input: &Value) -> Case {
         format!("multi_chunk={}", multi),
         format!("tty={}", ops.iter().any(|o| o["via"].as_str() == Some("tty"))),
         format!("session={}", ops.iter().any(|o| o["o"] == "sess")),
+        format!("invalid_scalar_bytes={}", ops.iter().any(|o| {
+            let b: Vec<u8> = if o["o"] == "sess" { session_bytes(o) } else { o["chunks"].as_array().map(|a| a.iter().flat_map(vbytes).collect()).unwrap_or_default() };
+            b.windows(2).any(|w| (w[0] == 0xED && w[1] >= 0xA0) || (w[0] == 0xF4 && w[1] >= 0x90) || (0xF5..=0xF7).contains(&w[0]))
+        })),
+        format!("set_cursor={}", ops.iter().any(|o| o["o"] == "cursor")),
         format!("put_text={}", ops.iter().any(|o| o["o"] == "text" || (o["o"] == "sess" && o["items"].as_array().map(|a| a.iter().any(|i| i["o"] == "text")).unwrap_or(false)))),
         format!("glyphs={}", input["glyphs"].as_bool().unwrap_or(true)),
     ];
@@ -856,11 +860,12 @@ fn run_text(defs: &Defs, input: &Value, text: &Text) -> TOut {
     }
     if vh > 0 && vw > 0 {
         if input["chained"].as_bool().unwrap_or(false) {
-            // the same window reached in two steps, with a double transposition in between
+            // the same window reached in three steps: a view, a transposition, a view taken in the transposed
+            // coordinates, and the transposition back (the two transpositions do not cancel syntactically)
             vops.push(VOp::View(Sel::From(pad[0] as i64), Sel::To((pad[1] + vw) as i64)));
             vops.push(VOp::T);
+            vops.push(VOp::View(Sel::From(pad[1] as i64), Sel::To(vh as i64)));
             vops.push(VOp::T);
-            vops.push(VOp::View(Sel::To(vh as i64), Sel::From(pad[1] as i64)));
         } else {
             vops.push(VOp::View(Sel::Rng(pad[0] as i64, (pad[0] + vh) as i64), Sel::Rng(pad[1] as i64, (pad[1] + vw) as i64)));
         }
@@ -958,6 +963,13 @@ fn run_t(input: &Value) -> Case {
         format!("maxw={}", ct[3].min(13)),
         format!("str_view={}", input["str"].as_bool().unwrap_or(false)),
         format!("area={}", if area == 0 { "0" } else if area < 4 { "1-3" } else { "4+" }),
+        format!("chained_view={}", input["chained"].as_bool().unwrap_or(false) && area > 0),
+        format!("layout_position={}", if input["pr"].as_u64().unwrap_or(0) > 0 || input["pc"].as_u64().unwrap_or(0) > 0 { "nonzero" } else { "origin" }),
+        format!("clipped={}", input["clh"].as_u64().unwrap_or(0) > 0 || input["clw"].as_u64().unwrap_or(0) > 0),
+        // the view is exactly the reported rectangle, and the constraint is exactly the measured height
+        format!("exact_fit_view={}", ["eh", "ew", "clh", "clw"].iter().all(|k| input[*k].as_u64().unwrap_or(0) == 0) && area > 0),
+        format!("exact_fit_height={}", match &out { Some(o) => o.nat_h == ct[2] && o.nat_h > 0, None => false }),
+        format!("height_cut={}", match &out { Some(o) => o.nat_h > ct[2], None => false }),
     ];
     Case { coq, json: j, tags, nontrivial }
 }
@@ -1025,10 +1037,12 @@ fn jcoq(node: &Value) -> String {
             let body = if node["glyph"].is_object() {
                 let g = &node["glyph"];
                 format!(
-                    "(JBGlyph (KGlyph 999 {} {} {}))",
+                    "(JBGlyph (KGlyph 999 {} {} {}) {})",
                     cnat(g["h"].as_u64().unwrap_or(1) as usize),
                     cnat(g["w"].as_u64().unwrap_or(1) as usize),
-                    clist(vusizes(&g["fb"]).iter().map(|c| c.to_string()))
+                    clist(vusizes(&g["fb"]).iter().map(|c| c.to_string())),
+                    // the "text" such an object may carry reaches model and predicate as part of the document
+                    if node["text"].is_null() { "None".to_string() } else { format!("(Some {})", jcoq(&node["text"])) }
                 )
             } else if !node["text"].is_null() {
                 format!("(JBText {})", jcoq(&node["text"]))
@@ -1068,7 +1082,14 @@ fn run_j(input: &Value) -> Case {
         }
     }
     let d = depth(&input["doc"]);
-    let tags = vec!["kind=json_text".to_string(), format!("json_depth={}", d.min(4)), format!("json_cells={}", if ncells == 0 { "0" } else if ncells < 4 { "1-3" } else { "4+" })];
+    fn glyph_with_text(n: &Value) -> bool {
+        match n["t"].as_str().unwrap_or("") {
+            "s" => false,
+            "a" => n["items"].as_array().map(|a| a.iter().any(glyph_with_text)).unwrap_or(false),
+            _ => (n["glyph"].is_object() && !n["text"].is_null()) || (!n["text"].is_null() && glyph_with_text(&n["text"])),
+        }
+    }
+    let tags = vec!["kind=json_text".to_string(), format!("json_glyph_with_text={}", glyph_with_text(&input["doc"])), format!("json_depth={}", d.min(4)), format!("json_cells={}", if ncells == 0 { "0" } else if ncells < 4 { "1-3" } else { "4+" })];
     Case { coq: format!("CJ {} {}", jcoq(&input["doc"]), coq_res), json: j, tags, nontrivial: d >= 2 && ncells >= 2 }
 }
 
